@@ -5,7 +5,10 @@ from . import ops
 
 
 def core_terminals():
-    return [ops.StringSpec(), ops.CIStringSpec(), ops.RangeSpec(), ops.AnySpec(), ops.SOISpec(), ops.EOISpec()]
+    from . import c12
+
+    # c12.CIStrings: the regex-level assumptions the ^"v" contract rests on (escaped literal, flag I, simple case folding)
+    return [ops.StringSpec(), ops.CIStringSpec(), ops.RangeSpec(), ops.AnySpec(), ops.SOISpec(), ops.EOISpec(), c12.CIStrings()]
 
 
 def stack_terminals():
